@@ -132,7 +132,7 @@ def _run_universe(ctx, u, limit=None):
 
 def run(ctx):
     ctx.rule = ("case = one obs/fcst vector (length 0..3 over small integers, or length 4 over {0,1,2}, or with missing values) x "
-                "22 metrics x 14 aggregators (+2 quantile levels) for the 6 metrics that take one; "
+                "22 metrics x 14 aggregators (+4 quantile levels) for the 6 metrics that take one; "
                 "non-trivial = vector has ties, zeros or missing values")
     ctx.assumptions = ["values are small integers (exactly representable); numerical accuracy on ill-conditioned data is out of reach",
                        "rmsf is checked with the mean aggregator only"]
